@@ -445,6 +445,63 @@ class Family:
                         "impl-vs-spec",
                         f"memory storage, the same Point object inserted {n_alias} times: after update_all raised, contents are {after}, before the call {before}",
                         dict(family="hist-alias", aliases=n_alias, fail_on=fail_on, observed=after, expected=before)))
+        # a stored point whose tag set the program damaged through the reference it holds (MemoryStorage keeps the caller's
+        # object; nothing validates `p.tags["floor"] = 3`): calls that raise afterwards leave every attribute of every
+        # stored point as it was, and the caller sees its own exception
+        def raw(db):
+            return [(q.time, q.measurement, dict(q.tags), dict(q.fields)) for q in db._storage]
+
+        for au in (True, False):
+            # (a) the damaged point is handed to insert again, under another measurement: rejected, nothing renamed
+            db = tf.TinyFlux(storage=MemoryStorage, auto_index=au)
+            p = tf.Point(time=V.dt_of(G.T0), measurement="rooms", tags={"a": "x"}, fields={"f": 1})
+            db.insert(p)
+            db.insert(tf.Point(time=V.dt_of(G.T0 + 1), measurement="rooms", tags={"a": "y"}))
+            p.tags["floor"] = 3
+            before = raw(db)
+            for label, call in (("db.insert(p, measurement='archive')", lambda: db.insert(p, measurement="archive")),
+                                ("db.measurement('archive').insert(p)", lambda: db.measurement("archive").insert(p)),
+                                ("db.insert_multiple([p], measurement='archive')", lambda: db.insert_multiple([p], measurement="archive"))):
+                try:
+                    call()
+                    err = None
+                except Exception as e:
+                    err = type(e).__name__
+                if err is not None and raw(db) != before:
+                    out.append(Finding(
+                        "impl-vs-spec", f"memory/{'auto' if au else 'noauto'}: a stored point whose tags were edited to {{'floor': 3}} through the "
+                        f"caller's reference: {label} raised {err}, and the stored points changed: {raw(db)} (before: {before})"[:700],
+                        dict(family="hist-alias", scenario="damaged-reinsert", auto_index=au, observed=str(raw(db))[:300], expected=str(before)[:300])))
+                    break
+            # (b) a time-only update whose callable raises on a later point: the undo must not trip over the damaged set
+            db = tf.TinyFlux(storage=MemoryStorage, auto_index=au)
+            pts = [tf.Point(time=V.dt_of(G.T0 + i), measurement="m", tags={"a": "xyz"[i % 3]}, fields={"f": i}) for i in range(4)]
+            db.insert_multiple(pts)
+            pts[1].tags["rack"] = 7
+
+            class Offline(Exception):
+                pass
+
+            def shift(t, last=pts[3].time):
+                if t == last:
+                    raise Offline("the caller's own exception")
+                return t + (pts[1].time - pts[0].time)
+
+            before = raw(db)
+            for label, call in (("db.update_all(time=callable)", lambda: db.update_all(time=shift)),
+                                ("db.update(a.exists(), time=callable)", lambda: db.update(tf.TagQuery().a.exists(), time=shift))):
+                try:
+                    call()
+                    err = None
+                except Exception as e:
+                    err = type(e).__name__
+                if err is not None and (raw(db) != before or err != "Offline"):
+                    out.append(Finding(
+                        "impl-vs-spec", f"memory/{'auto' if au else 'noauto'}: one stored point's tags were edited to hold 7 through the caller's "
+                        f"reference; {label} whose callable raises on the last point raised {err} (the callable raised Offline) and left "
+                        f"{raw(db)} (before: {before})"[:700],
+                        dict(family="hist-alias", scenario="damaged-undo", auto_index=au, observed=str(raw(db))[:300], expected=str(before)[:300])))
+                    break
         return out[:1]
 
     def error_scenarios(self, only=None):
